@@ -46,7 +46,9 @@ REQUIRED = ['C16.exact_cycle_to_samples', 'C16.exact_cycle_to_samples_label', 'C
             'C16.project_chain_to_cycles',
             'C16.project_chain_to_samples',
             'C16.project_value_eq_map',
-            'C16.cycle_to_samples_contiguous']
+            'C16.cycle_to_samples_contiguous',
+            'C16.integer_flags_select_like_booleans',
+            'C16.integer_flags_spec']
 TRUSTED = ['indices handed to the maps are non-negative Python ints (negative indexing is not part of the modelled interface)',
            'label vectors are 1-d integer numpy arrays; subset and chain vectors are those returned by the real '
            'get_subset_vector / get_chain_vector on the same run']
@@ -119,7 +121,7 @@ class Exhaustive(Stream):
         return [_maps.impl_table(case['cv'], v, vc, vs, vh, vd=case.get('vd', 'bool')) for v, vc, vs, vh in self._items(case)]
 
     def ops(self, case, out):
-        return [_maps.maps_op(case['cv'], v, vc, vs, vh) for v, vc, vs, vh in self._items(case)]
+        return [_maps.maps_op(case['cv'], v, vc, vs, vh, vd=case.get('vd', 'bool')) for v, vc, vs, vh in self._items(case)]
 
     def compare(self, case, out, results):
         if _timed_out(out):
@@ -289,7 +291,7 @@ class Single(Stream):
                                 prev=(prev['cv'], prev['valids']) if prev else None)
 
     def ops(self, case, out):
-        return [_maps.maps_op(case['cv'], case['valids'], *self._vals(case))]
+        return [_maps.maps_op(case['cv'], case['valids'], *self._vals(case), vd=case.get('vd', 'bool'))]
 
     def _outside(self, case):
         """malformed structure (labels repeated / skipped / out of time order, selection vector of another length):
